@@ -27,8 +27,11 @@ type Actor struct {
 	Forged     map[string]string // description of certificates the actor fabricated: key -> how
 	voted      map[string]bool   // autopilot: stack/blockhash already voted
 	proposed   map[string]bool   // autopilot: stack/view already proposed
+	ForgedQCs  []hotstuff.QuorumCert
+	ForgedTCs  []hotstuff.TimeoutCert
 	armed      *Step             // autopilot: deviation to apply to the next proposal the actor would make honestly
 	Deviations int
+	batches    int
 }
 
 func newActor(cl *Cluster) *Actor {
@@ -123,6 +126,17 @@ func (a *Actor) targets(mask int) []*Stack {
 
 func (a *Actor) batch() *clientpb.Batch {
 	b := &clientpb.Batch{}
+	a.batches++
+	if a.cl.Cfg.ActorReuseCmds && a.batches%2 == 0 && len(a.cl.AllBlk) > 1 {
+		// re-propose the commands of an earlier block (clients' commands can appear in several committed blocks)
+		src := a.cl.AllBlk[1+mod(a.batches*7, len(a.cl.AllBlk)-1)]
+		for _, c := range src.Commands().GetCommands() {
+			b.Commands = append(b.Commands, c)
+		}
+		if len(b.Commands) > 0 {
+			return b
+		}
+	}
 	for i := 0; i < a.cl.Cfg.Batch; i++ {
 		a.cmdSeq++
 		b.Commands = append(b.Commands, &clientpb.Command{ClientID: 9, SequenceNumber: a.cmdSeq, Data: []byte(fmt.Sprintf("byz-%d;", a.cmdSeq))})
@@ -325,16 +339,21 @@ func (a *Actor) Act(A, B, C int) {
 		qc := hotstuff.NewQuorumCert(sig, blk.View(), blk.Hash())
 		if sig.Participants().Len() < cl.Quorum() {
 			a.Forged[string(qc.ToBytes())] = "sub-quorum"
+			a.ForgedQCs = append(a.ForgedQCs, qc)
 		}
 		a.addQC(qc)
 	case ARelabelQC:
 		qc := a.QCs[mod(B, len(a.QCs))]
 		nv := qc.View() + hotstuff.View(1+mod(C, 4))
-		if mod(C, 7) == 0 {
-			nv = a.maxView() + hotstuff.View(mod(C, 3))
+		if mod(C, 2) == 0 {
+			nv = a.maxView() + hotstuff.View(mod(C/2, 3)) // a view that would move the receivers
+		}
+		if nv == qc.View() {
+			nv++
 		}
 		rq := hotstuff.NewQuorumCert(qc.Signature(), nv, qc.BlockHash())
 		a.Forged[string(rq.ToBytes())] = "relabelled-view"
+		a.ForgedQCs = append(a.ForgedQCs, rq)
 		a.addQC(rq)
 	case ARepeatQC:
 		blk := cl.AllBlk[mod(B, len(cl.AllBlk))]
@@ -343,6 +362,7 @@ func (a *Actor) Act(A, B, C int) {
 		}
 		qc := hotstuff.NewQuorumCert(repeat(a.sign(me, blk.ToBytes()), cl.Quorum()), blk.View(), blk.Hash())
 		a.Forged[string(qc.ToBytes())] = "repeated-signer"
+		a.ForgedQCs = append(a.ForgedQCs, qc)
 		a.addQC(qc)
 	case AForgedTC:
 		// combine the view-timeout signatures seen for the most common recent view; optionally relabel
@@ -367,7 +387,13 @@ func (a *Actor) Act(A, B, C int) {
 		if !seen[me.ID] {
 			sigs = append(sigs, a.sign(me, best.ToBytes()))
 		}
-		if len(sigs) < 2 {
+		if len(sigs) < 2 || mod(C, 4) == 3 {
+			// nothing to combine (or by choice): a "certificate" carrying only the actor's own, valid, signature for the frontier view
+			v := a.maxView() + hotstuff.View(mod(B, 2))
+			tc := hotstuff.NewTimeoutCert(a.sign(me, v.ToBytes()), v)
+			a.Forged["tc:"+string(tc.ToBytes())] = "single-signature"
+			a.ForgedTCs = append(a.ForgedTCs, tc)
+			a.TCs = append(a.TCs, tc)
 			return
 		}
 		sig, err := me.base.Combine(sigs...)
@@ -375,12 +401,38 @@ func (a *Actor) Act(A, B, C int) {
 			return
 		}
 		v := best
-		if mod(B, 3) == 0 {
+		switch mod(B, 3) {
+		case 0:
 			v = best + hotstuff.View(1+mod(C, 3)) // relabelled
+		case 1:
+			v = a.maxView() + hotstuff.View(mod(C, 2)) // relabelled to the frontier
 		}
 		tc := hotstuff.NewTimeoutCert(sig, v)
+		if v != best || sig.Participants().Len() < cl.Quorum() {
+			a.Forged["tc:"+string(tc.ToBytes())] = "relabelled-or-sub-quorum"
+			a.ForgedTCs = append(a.ForgedTCs, tc)
+		}
 		a.TCs = append(a.TCs, tc)
 	case ATimeout:
+		if mod(C, 2) == 1 && (len(a.ForgedQCs) > 0 || len(a.ForgedTCs) > 0) {
+			// a timeout message of the actor (validly signed) that carries the newest fabricated certificates
+			v := a.maxView()
+			si := hotstuff.NewSyncInfo()
+			if len(a.ForgedQCs) > 0 {
+				si.SetQC(a.ForgedQCs[len(a.ForgedQCs)-1-mod(B, min(2, len(a.ForgedQCs)))])
+			}
+			if len(a.ForgedTCs) > 0 {
+				si.SetTC(a.ForgedTCs[len(a.ForgedTCs)-1])
+			}
+			tm := hotstuff.TimeoutMsg{ID: me.ID, View: v, SyncInfo: si, ViewSignature: a.sign(me, v.ToBytes())}
+			if cl.Cfg.Rules == "fasthotstuff" {
+				tm.MsgSignature = a.sign(me, tm.ToBytes())
+			}
+			for _, to := range a.targets(0) {
+				a.send(me, to, tm)
+			}
+			return
+		}
 		v := a.maxView() - 1 + hotstuff.View(mod(B, 4))
 		if mod(B, 11) == 0 {
 			v = a.maxView() + 1000
@@ -399,6 +451,19 @@ func (a *Actor) Act(A, B, C int) {
 		}
 	case ANewView:
 		si := hotstuff.NewSyncInfo()
+		if mod(C, 2) == 1 && (len(a.ForgedQCs) > 0 || len(a.ForgedTCs) > 0) {
+			// the newest fabricated certificate(s), to every replica
+			if len(a.ForgedQCs) > 0 && mod(B, 3) != 2 {
+				si.SetQC(a.ForgedQCs[len(a.ForgedQCs)-1-mod(B, min(2, len(a.ForgedQCs)))])
+			}
+			if len(a.ForgedTCs) > 0 && mod(B, 3) != 1 {
+				si.SetTC(a.ForgedTCs[len(a.ForgedTCs)-1-mod(B, min(2, len(a.ForgedTCs)))])
+			}
+			for _, to := range a.targets(0) {
+				a.send(me, to, hotstuff.NewViewMsg{ID: me.ID, SyncInfo: si, FromNetwork: true})
+			}
+			return
+		}
 		switch mod(B, 4) {
 		case 0:
 			si.SetQC(a.QCs[mod(C, len(a.QCs))])
@@ -413,6 +478,7 @@ func (a *Actor) Act(A, B, C int) {
 				agg := a.AggQCs[mod(C, len(a.AggQCs))]
 				if mod(C, 2) == 0 {
 					agg = hotstuff.NewAggregateQC(agg.QCs(), agg.Sig(), agg.View()+1) // relabelled
+					a.Forged[fmt.Sprintf("agg:%d:%p", agg.View(), agg.Sig())] = "relabelled"
 				}
 				si.SetAggQC(agg)
 				si.SetTC(a.TCs[mod(C/5, len(a.TCs))])
